@@ -6,7 +6,7 @@ import mergelib
 import vlib
 
 MANIFEST = {
-    "text": "Merge-level half of C15, in Coq over the model of unification::merge whose usage table is regenerated from WordUse::merge/size/is_definitely_signed on every run: usages form a bounded join-semilattice and wuse_merge is the least upper bound of the induced order (exhaustive case analysis over the generated table), widths are a flat lattice, and folding merge over ANY list of word evidence yields the lattice join of the family -- a known width and the most specific usage are kept, compatible words never conflict, and the result is a Conflict exactly when the family has no upper bound (two different widths or usages without a common refinement); the join does not depend on the order of the family. Any is the identity, conflicts absorb and accumulate, plainly contradictory constructors (mapping / fixed array against arrays, bytes, sized words) conflict. For three pieces of evidence without Packed: a contradiction between two of them is never silently dropped under either grouping, OUTSIDE the recorded class K1 (general theorem, all widths/variables); inside it C15_contradiction_refuted gives the witness. The same laws are evaluated on the outputs of the REAL merge for every pair and triple of C16's 40-element domain, random expressions and random word families (left folds of 2-6 words). UNIFICATION LEVEL: C15_unify_words_join (props/C15_unify.v) proves that unify resolves every packed-free class whose evidence is words to the lattice join, for every iteration order; the check also runs judgement sets of the order-free fragment (incl. constructed types sharing one variable in several component positions) through the REAL unify and requires, for every class of the congruence closure computed in Coq (proved to be unify's partition on that fragment), that each member resolves to the join of ALL evidence of the class (code 23) -- so a lost component equality shows up as evidence that was not joined. CONSTRUCTED TYPES through unification (props/C15_unify.v, proofs/UnifyCtorKept.v): C15_unify_ctor_kept -- on the order-free fragment, for every iteration order and fuel, every variable of a class that received a piece of constructed evidence e (mapping, fixed or dynamic array) resolves to exactly one type of e's constructor and length whose components lie in the classes of e's components, never a conflict.",
+    "text": "Merge-level half of C15, in Coq over the model of unification::merge whose usage table is regenerated from WordUse::merge/size/is_definitely_signed on every run: usages form a bounded join-semilattice and wuse_merge is the least upper bound of the induced order (exhaustive case analysis over the generated table), widths are a flat lattice, and folding merge over ANY list of word evidence yields the lattice join of the family -- a known width and the most specific usage are kept, compatible words never conflict, and the result is a Conflict exactly when the family has no upper bound (two different widths or usages without a common refinement); the join does not depend on the order of the family. Any is the identity, conflicts absorb and accumulate, plainly contradictory constructors (mapping / fixed array against arrays, bytes, sized words) conflict. For three pieces of evidence without Packed: a contradiction between two of them is never silently dropped under either grouping, OUTSIDE the recorded class K1 (general theorem, all widths/variables); inside it C15_contradiction_refuted gives the witness. The same laws are evaluated on the outputs of the REAL merge for every pair and triple of C16's 40-element domain, random expressions and random word families (left folds of 2-6 words). UNIFICATION LEVEL: C15_unify_words_join (props/C15_unify.v) proves that unify resolves every packed-free class whose evidence is words to the lattice join, for every iteration order; the check also runs judgement sets of the order-free fragment (incl. constructed types sharing one variable in several component positions) through the REAL unify and requires, for every class of the congruence closure computed in Coq (proved to be unify's partition on that fragment), that each member resolves to the join of ALL evidence of the class (code 23) -- so a lost component equality shows up as evidence that was not joined. CONSTRUCTED TYPES through unification (props/C15_unify.v, proofs/UnifyCtorKept.v): C15_unify_ctor_kept -- on the order-free fragment, for every iteration order and fuel, every variable of a class that received a piece of constructed evidence e (mapping, fixed or dynamic array) resolves to exactly one type of e's constructor and length whose components lie in the classes of e's components, never a conflict. THROUGH THE LAYOUT LOOP (proofs/LayoutJoin.v): C15_layout_reports_join / C15_layout_reports_conflict -- after unifying a packed-free judgement set, for every iteration order and fuel, the layout built for a constant-slot value whose class carries word evidence is the single row (slot index, bit 0, ABI type of the join of ALL that evidence), and the conflicted type when the evidence has no join. The ORACLE of every search is the hand-written specification of compatible usages (Merge.v wuse_join_spec: bytes below everything, numeric below unsigned / signed / address, unsigned below address, everything else incomparable), not the table generated from the source; C15_usage_table_is_spec / C15_word_join_is_spec prove, against the table of every run, that the generated WordUse::merge coincides with that specification.",
     "note": "The unification-level half (resolution through union-find, rounds and component equalities) belongs to the C14 stage that "
             "builds on Merge.v. 'Contradictions conflict' is false where a DynamicArray/Bytes absorbs two contradictory words: known "
             "finding K1 (key C15:K1), same class as C16:K1, classified with the Coq predicate K1. Trusted: Coq kernel + vm_compute; "
